@@ -112,6 +112,7 @@ structure State where
   n : Nat                 -- next fresh identity
   cache : Nat → Bool → Nat → Option Nat   -- Builder.mockers: builder → ("var_%d" | "ue_var_%s") key → mocker
   ret : Nat               -- the mocker the last successful lookup returned
+  pkg : Nat → Nat         -- Builder.pkgName per builder: 0 = the caller's package, p > 0 = a pending `Pkg(p)` override
 
 inductive Outcome
   | ok
@@ -193,15 +194,18 @@ def applyOp (lg : Bool) (s : State) (i : Nat) (cb : Cb) : State × Outcome :=
   | .error p => (s, .panic p)
   | .ok v => if lg then doSet lg s i v else setOp lg s i v
 
-/-- builder.go:161 `Var` / :180 `UnExportedVar`: cached mocker unless cancelled, else a new one that replaces it -/
-def look (s : State) (b : Nat) (ue : Bool) (c : Nat) : State × Outcome :=
+/-- builder.go `Var` / `UnExportedVar`: cached mocker unless cancelled, else a new one that replaces it.  The cache key
+    is `"var_<addr>"` / `"ue_var_<path>"` — it does **not** contain `b.pkgName`, so a pending `Pkg(..)` override does not
+    change which mocker is found; since fd6dbcf both paths end with `reset2CurPkg()` (the published code did not). -/
+def look (lg : Bool) (s : State) (b : Nat) (ue : Bool) (c : Nat) : State × Outcome :=
+  let pkg' : Nat → Nat := if lg then s.pkg else upd s.pkg b 0
   let fresh : State × Outcome :=
     let m : Mocker := { b := b, ue := ue, addr := c, target := if ue then none else some (s.mem c).ty,
                         origin := none, mocked := false, canceled := false }
-    ({ s with mks := upd s.mks s.n m, n := s.n + 1, ret := s.n,
+    ({ s with mks := upd s.mks s.n m, n := s.n + 1, ret := s.n, pkg := pkg',
               cache := fun b' u' c' => if b' = b ∧ u' = ue ∧ c' = c then some s.n else s.cache b' u' c' }, .ok)
   match s.cache b ue c with
-  | some i => if (s.mks i).canceled then fresh else ({ s with ret := i }, .ok)
+  | some i => if (s.mks i).canceled then fresh else ({ s with ret := i, pkg := pkg' }, .ok)
   | none => fresh
 
 /-- builder.go:192 `Reset`: `Cancel` every cached mocker, in the order `ord` the map iteration happens to produce;
@@ -217,6 +221,7 @@ def resetGo (lg : Bool) (b : Nat) : State → List (Bool × Nat) → State × Ou
       | (s', o) => (s', o)
 
 inductive Op
+  | pkg (b : Nat) (p : Nat)                -- b.Pkg(p): package override for the next lookup
   | look (b : Nat) (ue : Bool) (c : Nat)
   | lookBad (p : Panic)                    -- a lookup that panics before anything is cached
   | set (i : Nat) (v : Boxed)
@@ -227,7 +232,8 @@ inductive Op
   deriving Repr
 
 def step (lg : Bool) (s : State) : Op → State × Outcome
-  | .look b ue c => look s b ue c
+  | .pkg b p => ({ s with pkg := upd s.pkg b p }, .ok)
+  | .look b ue c => look lg s b ue c
   | .lookBad p => (s, .panic p)
   | .set i v => setOp lg s i v
   | .apply i cb => applyOp lg s i cb
@@ -243,6 +249,6 @@ def run (lg : Bool) (s : State) : List Op → State
 def init (mem : Nat → Cell) : State :=
   { mem := mem,
     mks := fun _ => { b := 0, ue := false, addr := 0, target := none, origin := none, mocked := false, canceled := false },
-    n := 0, cache := fun _ _ _ => none, ret := 0 }
+    n := 0, cache := fun _ _ _ => none, ret := 0, pkg := fun _ => 0 }
 
 end Var
